@@ -352,9 +352,9 @@ expand_one_env = Fn(S, 'expand_one_env', ret='r',
            why='libc::getpid() through a shim (unsafe block removed); Display for i32 through vx_int_to_string'),
     ],
     int_args=('sh.previous_status',),
-    ensures=[('C10.one_env.leftmost_reference_replaced_by_its_value_rest_returned_separately',
+    ensures=[('C10+C05.one_env.leftmost_reference_replaced_by_its_value_rest_returned_separately',
               'r.0@ == one_env(*sh, token@).0 && r.1@ == one_env(*sh, token@).1'),
-             ('C10.one_env.rest_is_shorter', 'r.1@.len() < token@.len() || r.1@.len() == 0')],
+             ('C10+C05.one_env.rest_is_shorter', 'r.1@.len() < token@.len() || r.1@.len() == 0')],
 )
 
 ALIAS_MATCH = 'is_head_at(tokens@, K) && smap(sh.aliases).contains_key(tokens@[K].1@) && smap(sh.aliases)[tokens@[K].1@].len() > 0'
